@@ -753,7 +753,7 @@ def run_xoprob(ctx, g, gm, gkind, kname, fn, qc, qp, tab, congruent, classes, co
 
 
 # =================================================================== driver
-FAMILIES = {"mapfn": (case_mapfn, 20000, 1000000), "map": (case_map, 6000, 300000)}
+FAMILIES = {"mapfn": (case_mapfn, 20000, 500000), "map": (case_map, 6000, 150000)}
 
 
 def run_shard(ctx):
